@@ -9,8 +9,8 @@ sys.path.insert(0, os.path.dirname(os.path.dirname(os.path.abspath(__file__))))
 def search_csv(job):
     from bounded import c20_csv as S
     warnings.simplefilter("ignore")
-    for seed in (1, 2, 3):
-        case = {"kind": "grid", "seed": seed, "n": 15, "max_rows": 6, "max_cols": 4, "hostile": True, "distinct_header": "names"}
+    for seed in (1, 2, 3, 4, 5, 6, 7, 8):
+        case = {"kind": "grid", "seed": seed, "n": 25, "max_rows": 8, "max_cols": 5, "hostile": seed % 2 == 1, "distinct_header": "names"}
         r = S.run_case(case)
         if r and not r.get("ok"):
             return {"violated": True, "detail": r["detail"], "job": {"custom": "replay_case", "case": case}}
